@@ -4,6 +4,7 @@ import (
 	"github.com/bolkedebruin/rdpgw/cmd/rdpgw/identity"
 	"github.com/bolkedebruin/rdpgw/cmd/rdpgw/transport"
 	"net"
+	"sync"
 	"time"
 )
 
@@ -22,6 +23,9 @@ type Tunnel struct {
 	// The underlying outgoing transport being either websocket or legacy http
 	// in case of websocket transportOut will equal transportOut
 	transportOut transport.Transport
+	// writeMu serialises the writers of transportOut: the packet loop and the
+	// relay of the remote desktop server's data run in different goroutines
+	writeMu sync.Mutex
 	// bytes received on transportIn that belong to the next packet(s)
 	pending []byte
 	// The remote desktop server (rdp, vnc etc) the clients intends to connect to
@@ -50,6 +54,9 @@ type Tunnel struct {
 
 // Write puts the packet on the transport and updates the statistics for bytes sent
 func (t *Tunnel) Write(pkt []byte) {
+	t.writeMu.Lock()
+	defer t.writeMu.Unlock()
+
 	n, _ := t.transportOut.WritePacket(pkt)
 	t.BytesSent += int64(n)
 }
